@@ -83,6 +83,9 @@ type c02H struct {
 	remErr  error
 
 	deadline time.Time
+
+	poolMu sync.Mutex
+	pool   []*c02Case
 }
 
 func (h *c02H) client() *lfsapi.Client {
@@ -124,6 +127,54 @@ func (h *c02H) newCase() *c02Case {
 }
 
 func (c *c02Case) cleanup() { os.RemoveAll(c.dir) }
+
+// pooledCase / release: the basic scenario reuses scratch repositories (creating and deleting six directories per
+// case dominated its cost).  A directory goes back to the pool only if it is verifiably pristine again.
+func (h *c02H) pooledCase() *c02Case {
+	h.poolMu.Lock()
+	if n := len(h.pool); n > 0 {
+		c := h.pool[n-1]
+		h.pool = h.pool[:n-1]
+		h.poolMu.Unlock()
+		c.id = atomic.AddInt64(&h.seq, 1)
+		return c
+	}
+	h.poolMu.Unlock()
+	return h.newCase()
+}
+
+func (h *c02H) release(c *c02Case) {
+	inc := filepath.Dir(c.part)
+	ents, err := os.ReadDir(inc)
+	if err != nil {
+		c.cleanup()
+		return
+	}
+	for _, e := range ents {
+		if os.RemoveAll(filepath.Join(inc, e.Name())) != nil {
+			c.cleanup()
+			return
+		}
+	}
+	os.Remove(c.final)
+	if _, err := os.Lstat(c.final); err == nil {
+		c.cleanup()
+		return
+	}
+	od, err := os.ReadDir(filepath.Dir(c.final))
+	if err != nil || len(od) != 0 {
+		c.cleanup()
+		return
+	}
+	ld, err := os.ReadDir(filepath.Join(c.dir, ".git", "lfs"))
+	if err != nil || len(ld) != 2 {
+		c.cleanup()
+		return
+	}
+	h.poolMu.Lock()
+	h.pool = append(h.pool, c)
+	h.poolMu.Unlock()
+}
 
 func must(err error) {
 	if err != nil {
@@ -526,7 +577,7 @@ func TestVerifC02(t *testing.T) {
 		st := p.Explore(h, exec)
 		fmt.Printf("scenario %-12s executions=%d outcomes=%d exhaustive=%v wall=%.1fs\n", p.Scenario, st.Executions, len(st.Outcomes), st.Exhaustive, time.Since(t0).Seconds())
 		parts = append(parts, vx.Part{Scenario: p.Scenario, Stats: st, Exec: exec})
-		if len(st.Outcomes) <= 150 {
+		if len(st.Outcomes) <= 400 {
 			byScenario[p.Scenario] = st.Outcomes
 		} else {
 			byScenario[p.Scenario] = fmt.Sprintf("%d distinct outcomes (histogram omitted)", len(st.Outcomes))
